@@ -95,11 +95,25 @@ def marked_lines(report, source):
     return sorted(out)
 
 
+def type_to_str(t):
+    """How an inferred type is written in the report (the oracle's own rendering, not the auditor's): a type error by its
+    message, a list type with its element type, anything else that has a name (classes, `Callable[...]` of an admitted
+    helper used as a value) by that name."""
+    if isinstance(t, TypeError):
+        return "TypeError: " + str(t)
+    name = getattr(t, "__name__", None)
+    if name == "list":
+        args = getattr(t, "__args__", None)
+        return "list[" + type_to_str(args[0]) + "]" if args else "list"
+    if name is not None:
+        return str(name)
+    return "TypeError: type cannot be determined"
+
+
 def displayed(report, source, tree, atok, skips):
     """Each audited expression's inferred type / error, each restriction and each skipped line is
     shown by an element that lies inside the node's text."""
     from nada_dsl.audit.common import audits, SyntaxRestriction, RuleInAncestor, TypeInParent
-    from nada_dsl.audit.report import type_to_str
     v = []
     sp = spans(report)
     lines = source.split("\n")
@@ -176,7 +190,6 @@ def invented(report, source, tree, atok, skips=()):
     """The converse of `displayed`: every detail the report shows is one the checker attached to a node whose text touches
     the line(s) where it is shown — the report does not announce types, errors or restrictions nobody inferred."""
     from nada_dsl.audit.common import audits, SyntaxRestriction, RuleInAncestor, TypeInParent
-    from nada_dsl.audit.report import type_to_str
     v = []
     lines = source.split("\n")
     starts = [0]
